@@ -455,7 +455,7 @@ func runAPICase(ac APICase) (*Fail, error) {
 		what := fmt.Sprintf("storm of %d workers x %d rounds over [%s] (state %s/%s RF=%d)", ac.Workers, ac.Rounds, strings.Join(rs, "; "), ac.Cfg.State, ac.Cfg.Extra, ac.Cfg.RF)
 		sigBase := "storm|" + stormSig(ac.Storm)
 		if dead, how := ch.exited(); dead {
-			return fail(sigBase+"|process-exit", what+"\nthe API process terminated: "+how+"\nstderr tail:\n"+tailStr(ch.errb.String(), 1500), "C14"), nil
+			return fail(sigBase+"|process-exit", what+"\nthe API process terminated: "+how+"\n"+crashHead(ch.errb.String())+"\nstderr tail:\n"+tailStr(ch.errb.String(), 1500), "C14"), nil
 		}
 		for r := range resc {
 			if r.err != nil && r.took >= 24*time.Second {
@@ -483,6 +483,21 @@ func stormSig(rs []APIReq) string {
 	}
 	sort.Strings(out)
 	return strings.Join(out, ",")
+}
+
+// crashHead: the line that says why a Go process died, with the first frames below it.
+func crashHead(stderr string) string {
+	lines := strings.Split(stderr, "\n")
+	for i, l := range lines {
+		if strings.HasPrefix(l, "fatal error:") || strings.HasPrefix(l, "panic:") {
+			end := i + 14
+			if end > len(lines) {
+				end = len(lines)
+			}
+			return strings.Join(lines[i:end], "\n")
+		}
+	}
+	return ""
 }
 
 func isCtrlRoute(r APIReq) bool {
